@@ -483,6 +483,22 @@ func genLineFilter(r *rand.Rand) stageIn {
 		st.Re, _ = json.Marshal(&ReAST{T: "eps"})
 	} else {
 		re := genReA(r, 3, "abx=1 .")
+		if r.Intn(4) == 0 {
+			// a plain word anchored on both sides / on one side: it matches the line that IS the word, not the lines holding it
+			w := pick(r, []string{"a", "ab", "b", "err", "err", "x", "a", "b"})
+			var node *ReAST = &ReAST{T: "eps"}
+			for i := len(w) - 1; i >= 0; i-- {
+				node = &ReAST{T: "cat", A: &ReAST{T: "lit", C: int(w[i])}, B: node}
+			}
+			switch r.Intn(4) {
+			case 0:
+				re = &ReAST{T: "cat", A: &ReAST{T: "bol"}, B: node}
+			case 1:
+				re = &ReAST{T: "cat", A: node, B: &ReAST{T: "eol"}}
+			default:
+				re = &ReAST{T: "cat", A: &ReAST{T: "bol"}, B: &ReAST{T: "cat", A: node, B: &ReAST{T: "eol"}}}
+			}
+		}
 		st.Val = B(re.Text())
 		st.Re, _ = json.Marshal(re)
 	}
@@ -651,6 +667,32 @@ func genLogq(r *rand.Rand, mode string) logqIn {
 	in.Recs = genRecs(r, n, true)
 	if mode == "select" && r.Intn(5) == 0 {
 		in.Recs = withTwins(r, in.Recs)
+	}
+	if mode == "select" && len(in.Recs) > 0 && r.Intn(10) == 0 {
+		// a regular expression that is a plain piece of some record's line, anchored: it matches the line that IS that piece
+		line := S(in.Recs[r.Intn(len(in.Recs))].Line)
+		if len(line) >= 2 {
+			a := r.Intn(len(line) - 1)
+			w := line[a : a+1+r.Intn(len(line)-a-1)]
+			ok := w != ""
+			for i := 0; i < len(w); i++ {
+				ok = ok && (w[i] >= 'a' && w[i] <= 'z' || w[i] >= '0' && w[i] <= '9' || w[i] == '=' || w[i] == ' ')
+			}
+			if ok {
+				var node *ReAST = &ReAST{T: "eps"}
+				for i := len(w) - 1; i >= 0; i-- {
+					node = &ReAST{T: "cat", A: &ReAST{T: "lit", C: int(w[i])}, B: node}
+				}
+				re := &ReAST{T: "cat", A: &ReAST{T: "bol"}, B: &ReAST{T: "cat", A: node, B: &ReAST{T: "eol"}}}
+				if k := r.Intn(4); k == 0 {
+					re = &ReAST{T: "cat", A: &ReAST{T: "bol"}, B: node}
+				} else if k == 1 {
+					re = &ReAST{T: "cat", A: node, B: &ReAST{T: "eol"}}
+				}
+				raw, _ := json.Marshal(re)
+				in.Stages = append([]stageIn{{T: "line", Op: []string{"re", "nre"}[r.Intn(2)], Val: B(re.Text()), Re: raw}}, in.Stages...)
+			}
+		}
 	}
 	if mode == "select" && r.Intn(4) == 0 {
 		// everything else a record may carry: scope and resource attributes (overriding the record's own and each other, also
